@@ -87,6 +87,7 @@ def units(tier):
     n = len(_polylines(ms))
     u = [{"k": "interp", "ms": ms, "lo": i, "hi": min(n, i + 100)} for i in range(0, n, 100)]
     u += [{"k": "merge", "shard": i} for i in range(8)]
+    u.append({"k": "routes"})
     # graphs: n=1..3 in one unit, n=4 sharded by the out-edges of lanelet 1 and 2 (64 shards)
     u.append({"k": "graphs", "n": 1}); u.append({"k": "graphs", "n": 2}); u.append({"k": "graphs", "n": 3})
     for sh in range(64):
@@ -100,14 +101,14 @@ def units(tier):
 # ------------------------------------------------------------------ (a)
 
 def _walker(center, left, right, s):
-    """independent arc-length walk; returns list of acceptable (c, r, l, idx)"""
-    seg = [math.hypot(center[i + 1][0] - center[i][0], center[i + 1][1] - center[i][1]) for i in range(len(center) - 1)]
+    """independent arc-length walk (points of any dimension); returns list of acceptable (c, r, l, idx)"""
+    seg = [math.sqrt(sum((q - p) ** 2 for p, q in zip(center[i], center[i + 1]))) for i in range(len(center) - 1)]
     acc = 0.0
     out = []
     for i, L in enumerate(seg):
         if acc - 1e-12 <= s <= acc + L + 1e-12:
             r = min(1.0, max(0.0, (s - acc) / L))
-            lerp = lambda P: ((1 - r) * P[i][0] + r * P[i + 1][0], (1 - r) * P[i][1] + r * P[i + 1][1])
+            lerp = lambda P: tuple((1 - r) * p + r * q for p, q in zip(P[i], P[i + 1]))
             out.append((lerp(center), lerp(right), lerp(left), i))
         acc += L
     return out, seg
@@ -115,7 +116,11 @@ def _walker(center, left, right, s):
 
 def _check_interp(steps, scheme, res, case_extra=None):
     center = _verts(steps)
-    left, right = _bounds(center, scheme)
+    left, right = _bounds(center, "const" if scheme == "3d" else scheme)
+    if scheme == "3d":
+        # (n, 3) polylines: a ramp whose height changes from vertex to vertex; the length of the centre line is its length in space
+        zs = [0.0, 2.0, 2.0, 7.0, 3.0][:len(center)]
+        center, left, right = ([(x, y, z) for (x, y), z in zip(P, zs)] for P in (center, left, right))
     case = {"k": "interp", "steps": [list(s) for s in steps], "scheme": scheme}
     res.states += 1
     try:
@@ -220,6 +225,53 @@ def _check_merge(a_steps, b_steps, decl, order, res):
     res.outcomes["merge-ok"] += 1
 
 
+# ------------------------------------------------------------------ (b') merging along successor routes
+
+# tree: root -> {a -> b, c}; every successor starts where its predecessor ends.  The id assignments include ones whose decimal concatenations
+# coincide for different routes ("1"+"2"+"3" = "1"+"23", "10"+"1"+"2" = "10"+"12")
+ROUTE_IDS = [(1, 2, 3, 4), (1, 2, 3, 23), (10, 1, 2, 12), (5, 51, 1, 511), (7, 8, 9, 89)]
+ROUTE_SHAPES = [((5, 0), (5, 0)), ((3, 4), (4, -3)), ((6, 8), (5, 0))]      # steps of (a, b); c goes off at another angle
+
+
+def _check_routes(ids, shape, res):
+    import numpy as np
+    from commonroad.scenario.lanelet import Lanelet, LaneletNetwork
+    r, a, b, c = ids
+    case = {"k": "routes", "ids": list(ids), "shape": [list(x) for x in shape]}
+    res.evals += 1; res.transitions += 1; res.nontrivial += 1; res.states += 1
+    cr = _verts([(5, 0), (5, 0)])
+    ca = _verts([shape[0]], start=cr[-1]); cb = _verts([shape[1]], start=ca[-1]); cc = _verts([(0, 5), (-3, 4)], start=cr[-1])
+    geo = {}
+    for lid, cen in ((r, cr), (a, ca), (b, cb), (c, cc)):
+        l_, r_ = _bounds(cen, "const")
+        geo[lid] = (cen, l_, r_)
+    succ = {r: [a, c], a: [b], b: [], c: []}
+    pred = {r: [], a: [r], b: [a], c: [r]}
+    net = LaneletNetwork.create_from_lanelet_list([_mk_lanelet(geo[i][0], geo[i][1], geo[i][2], i, pred=pred[i], succ=succ[i]) for i in (r, a, b, c)])
+    try:
+        merged, jobs = Lanelet.all_lanelets_by_merging_successors_from_lanelet(net.find_lanelet_by_id(r), net, 1000.0)
+    except Exception as e:
+        res.violation(f"C20|merged-routes|raises:{type(e).__name__}", f"{case}: {e!r}", case)
+        return
+    jobs = [list(j) for j in jobs]
+    if sorted(jobs) != sorted([[r, a, b], [r, c]]):
+        res.violation("C20|merged-routes|routes", f"{case}: routes {jobs}, expected [[{r},{a},{b}],[{r},{c}]]", case)
+        return
+    for m, job in zip(merged, jobs):
+        for name, k_, got in (("center", 0, m.center_vertices), ("left", 1, m.left_vertices), ("right", 2, m.right_vertices)):
+            exp = list(geo[job[0]][k_])
+            for lid in job[1:]:
+                exp += list(geo[lid][k_])[1:]
+            exp = np.array(exp, dtype=float)
+            if got.shape != exp.shape or not np.allclose(got, exp, atol=1e-12, rtol=0):
+                res.violation(f"C20|merged-routes|{name}-not-concatenation-of-the-route", f"{case}: route {job}: got {got.tolist()} expected {exp.tolist()}", case)
+                return
+        total = sum(sum(math.hypot(geo[lid][0][i + 1][0] - geo[lid][0][i][0], geo[lid][0][i + 1][1] - geo[lid][0][i][1]) for i in range(len(geo[lid][0]) - 1)) for lid in job)
+        if abs(float(m.distance[-1]) - total) > 1e-9 * (1 + total):
+            res.violation("C20|merged-routes|length-not-sum-of-the-route", f"{case}: route {job}: {float(m.distance[-1])} != {total}", case)
+    res.outcomes["merged-routes-ok"] += 1
+
+
 # ------------------------------------------------------------------ (c)
 
 class _Timeout(Exception):
@@ -311,7 +363,7 @@ def run_unit(unit, tier):
     if k == "interp":
         pl = _polylines(unit["ms"])[unit["lo"]:unit["hi"]]
         for steps in pl:
-            for scheme in OFFS + ["int"]:
+            for scheme in OFFS + ["int", "3d"]:
                 _check_interp(steps, scheme, res)
             res.sample({"k": "interp", "steps": steps}, 2)
     elif k == "merge":
@@ -326,6 +378,11 @@ def run_unit(unit, tier):
                     for order in ("AB", "BA"):
                         _check_merge(a, b, decl, order, res)
         res.sample({"k": "merge", "n_polylines": len(pl)}, 1)
+    elif k == "routes":
+        for ids in ROUTE_IDS:
+            for shape in ROUTE_SHAPES:
+                _check_routes(ids, shape, res)
+        res.sample({"k": "routes", "ids": ROUTE_IDS}, 1)
     elif k == "graphs":
         n = unit["n"]
         for mask, edges in _graph_iter(n, unit.get("shard") if n >= 4 else None, unit.get("max_edges")):
@@ -341,6 +398,8 @@ def replay(case):
         _check_interp([tuple(s) for s in case["steps"]], case["scheme"], res)
     elif case["k"] == "merge":
         _check_merge([tuple(s) for s in case["a"]], [tuple(s) for s in case["b"]], case["decl"], case["order"], res)
+    elif case["k"] == "routes":
+        _check_routes(tuple(case["ids"]), [tuple(x) for x in case["shape"]], res)
     else:
         _check_graph(case["n"], 0, [tuple(e) for e in case["edges"]], case["lens"], res)
     return [(s, d) for s, d, _ in res.violations]
